@@ -53,8 +53,12 @@ def build_pose(case):
     dt = NPD[case["dtype"]]
     data = floats(case["data"]).astype(dt).reshape(F, P, N, D)
     conf = floats(case["conf"]).astype(np.float32).reshape(F, P, N)
+    # memory layout of the arrays handed over (a function of the case only): C order, Fortran order, strided views
+    lay = (len(case["data"]) + sum(case["comps"]) + F) % 4
+    data = common.vary_layout(data, lay)
+    conf = common.vary_layout(conf, lay + 1)
     if case.get("mask") is not None:
-        data = ma.masked_array(data, mask=np.array(case["mask"], dtype=bool).reshape(F, P, N, D))
+        data = ma.masked_array(data, mask=common.vary_layout(np.array(case["mask"], dtype=bool).reshape(F, P, N, D), lay + 2))
     fmt = "XYZWVU"[:D] + "C"
     comps = [PoseHeaderComponent("c%d" % i, ["p%d_%d" % (i, j) for j in range(n)], [(0, 0)] if n else [], [(1, 2, 3)] if n else [], fmt)
              for i, n in enumerate(case["comps"])]
